@@ -147,3 +147,32 @@ def alternating_tree(rng, depth, first=1, p_stop=0.1, share=0.4, chance_rate=0.1
         return {"p": pl, "i": info, "a": kids}
     t = go(depth, first, ((), ()))
     return t, tree_stats(t)
+
+
+def blind_guess_tree(rng):
+    """One player opts in or out; after "in" nature draws a hidden state with a *skewed* distribution and the other
+    player guesses it without seeing it (one infoset spanning chance outcomes of different probability), then the
+    first player may react.  A wrong reach weighting of that infoset (chance reach dropped, stale reach) changes what
+    the guesser converges to, which random trees with near-uniform draws do not show."""
+    k = rng.choice([2, 2, 3])
+    ws = sorted([rng.uniform(0.05, 0.2) for _ in range(k - 1)] + [1.0], reverse=True)
+    guesser = rng.choice([1, 2])
+    first = 3 - guesser
+    outs = []
+    for state in range(k):
+        acts = []
+        for g in range(k):
+            pay = rng.uniform(1.0, 3.0) if g == state else -rng.uniform(0.5, 1.5)
+            pay = pay if guesser == 1 else -pay
+            if rng.random() < 0.3:
+                leaf = {"p": first, "i": 300 + g, "a": [[1, {"t": f2b(pay)}], [2, {"t": f2b(pay * rng.uniform(0.2, 1.5))}]]}
+            else:
+                leaf = {"t": f2b(pay)}
+            acts.append([g + 1, leaf])
+        outs.append([f2b(ws[state]), {"p": guesser, "i": 200, "a": acts}])
+    inner = {"c": None, "o": outs}
+    out_pay = rng.uniform(-0.5, 0.5)
+    t = {"p": first, "i": 100, "a": [[1, {"t": f2b(out_pay)}], [2, inner]]}
+    if rng.random() < 0.4:
+        t = {"c": None, "o": [[f2b(rng.uniform(0.5, 2.0)), t], [f2b(rng.uniform(0.5, 2.0)), {"t": f2b(rng.uniform(-1, 1))}]]}
+    return t, tree_stats(t)
